@@ -126,6 +126,11 @@ func (s *state) safety(kind, goal string, in ssa.Instruction) {
 	if goal == "true" {
 		return
 	}
+	if s.u.ct != nil && s.u.ct.partial {
+		s.u.notes["partial contract: run-time safety checks (nil, bounds, type assertions, explicit panics) of "+s.u.name()+" are assumed, not proved"] = true
+		s.pc = append(s.pc, goal)
+		return
+	}
 	s.oblige(kind, "", "automatic safety obligation: "+kind, goal, in.Pos(), s.site(in), false)
 	// after the check the property holds on the continuing path
 	s.pc = append(s.pc, goal)
@@ -407,6 +412,18 @@ func (s *state) exec(b *ssa.BasicBlock, pred *ssa.BasicBlock, start int) {
 			s.vals[x.p] = x.v
 			if x.p.Comment != "" {
 				s.names[x.p.Comment] = nameBinding{v: x.p}
+			}
+		}
+		if pred != nil {
+			// edges that leave a loop: `at exit loop k` clauses
+			for _, li := range loopsOf(b.Parent()) {
+				if li.blocks[pred] && !li.blocks[b] {
+					pos := b.Parent().Pos()
+					if len(pred.Instrs) > 0 {
+						pos = pred.Instrs[len(pred.Instrs)-1].Pos()
+					}
+					s.runSite(b.Parent(), fmt.Sprintf("exit loop %d", li.ord), pos, nil)
+				}
 			}
 		}
 		if pred != nil && isLoopHeader(b) {
@@ -769,7 +786,9 @@ func (s *state) applyHavoc(ms *modSet) {
 			s.havocHeap(h)
 		}
 		for k, t := range s.u.ghostTypes {
-			s.havocGhost(k, t)
+			if strings.HasPrefix(k, "G_") {
+				s.havocGhost(k, t)
+			}
 		}
 		return
 	}
@@ -909,6 +928,59 @@ func (s *state) collectMods(ms *modSet, blocks []*ssa.BasicBlock, seen map[*ssa.
 				ms.heaps["MAP"] = true
 			case ssa.CallInstruction:
 				s.callMods(ms, d, seen)
+				// ghost assignments attached to this call by site clauses
+				if cs, ok := callSites(b.Parent())[d]; ok {
+					s.siteGhostMods(ms, b.Parent(), fmt.Sprintf("call %s %d", cs.name, cs.k))
+					s.siteGhostMods(ms, b.Parent(), fmt.Sprintf("after call %s %d", cs.name, cs.k))
+				}
+			}
+		}
+	}
+	if !top && len(blocks) > 0 {
+		// the body of an inlined callee: its own entry / return sites
+		fn := blocks[0].Parent()
+		if fc := u.eng.contractFor(fn); fc != nil {
+			for _, ss := range fc.sites {
+				if ss.site == "entry" || strings.HasPrefix(ss.site, "return") || strings.HasPrefix(ss.site, "exit loop") {
+					s.siteGhostMods(ms, fn, ss.site)
+				}
+			}
+		}
+	}
+	if top && len(blocks) > 0 {
+		// exits of loops nested inside the loop being summarised
+		fn := blocks[0].Parent()
+		in := map[*ssa.BasicBlock]bool{}
+		for _, b := range blocks {
+			in[b] = true
+		}
+		for _, li := range loopsOf(fn) {
+			if in[li.header] {
+				s.siteGhostMods(ms, fn, fmt.Sprintf("exit loop %d", li.ord))
+			}
+		}
+	}
+}
+
+// siteGhostMods: ghost variables assigned by the clauses attached to `site` of fn
+func (s *state) siteGhostMods(ms *modSet, fn *ssa.Function, site string) {
+	u := s.u
+	fc := u.eng.contractFor(fn)
+	if fc == nil || fn.Pkg == nil {
+		return
+	}
+	for _, ss := range fc.sites {
+		if ss.site != site {
+			continue
+		}
+		for _, c := range ss.clauses {
+			if c.kind != "ghost" {
+				continue
+			}
+			if g := u.eng.findGhost(fn.Pkg.Pkg, c.label); g != nil {
+				e := &env{u: u, st: s, pkg: fn.Pkg.Pkg}
+				u.ghostTypes[ghostKey(g)] = e.ghostType(g)
+				ms.heaps[ghostKey(g)] = true
 			}
 		}
 	}
@@ -950,6 +1022,12 @@ func (s *state) callMods(ms *modSet, d ssa.CallInstruction, seen map[*ssa.Functi
 	if fc != nil && !(u.ct != nil && callee != nil && u.ct.inline[funcKey(callee)]) {
 		if fc.modAll {
 			ms.all = true
+			// ghost variables the callee also lists
+			for _, hb := range s.modBases(fc, callee) {
+				if strings.HasPrefix(hb, "G_") {
+					ms.heaps[hb] = true
+				}
+			}
 			return
 		}
 		for _, hb := range s.modBases(fc, callee) {
